@@ -1,5 +1,6 @@
 import XmppModel.Model.Sasl
 import XmppModel.Lemmas.Sasl
+import XmppModel.Generated.C03
 /-!
 # C03 — the authenticated bit is only set by a completed, accepted SASL exchange
 
@@ -501,6 +502,16 @@ example :
     r.authn = false ∧ r.err = .writeErr ∧ r.sent = [] := by decide
 
 /-! ### many sessions on one feature value -/
+
+/-- **No shared mutable state in the feature value** (regenerated from `sasl.go` on every
+run with go/ast): no variable of `newSASL` — its parameters, or anything declared beside the
+`StreamFeature` it returns — is assigned to, incremented, ranged into or address-taken inside
+the feature's `List` / `Parse` / `Negotiate` closures.  The sessions that share one
+`xmpp.SASL` / `xmpp.SASLServer` value therefore share only values that are never written,
+which is what makes the product model of `C03_sessions_independent` the right one.  (Not
+seen by the extractor: mutation through a method of a captured pointer.) -/
+theorem C03_gen_closure_no_shared_writes : Generated.C03.saslClosureWrites = some [] := by decide
+
 
 /-- **Sessions are independent.**  Whatever the schedule — any interleaving of the sessions'
 steps, any number of sessions — the state of session `i` is the state it reaches when run
